@@ -197,6 +197,7 @@ let handle (line : Stdlib.String.t) : Stdlib.String.t =
         (match ex with None -> "stuck" | Some (es, _) -> Irconv.entries_to_string nodes es)
         (match ex with None -> "-" | Some (_, tr) -> Irconv.trace_to_string tr)
         (if ok then 1 else 0)
+  | "frontend" -> Parseconv.do_frontend f
   | c -> failwith ("unknown command " ^ c)
 
 let () =
